@@ -140,6 +140,12 @@ class Gen:
                     sigs.append([nm, ch.rint(1, min(3, cfg["max_width"]), "advw"), "s"])
             self.emit(["bundle", k, f"B{k}", sigs, subs])
             self.bids.append(k)
+        self.ib_bids = []
+        if cfg.get("adv_members") and cfg["pairs"]:
+            k = len(self.bids)
+            self.emit(["bundle", k, f"B{k}", [["p", 1, "s"], ["p_", 1, "s"]], []])
+            self.bids.append(k)
+            self.ib_bids.append(k)
         if cfg["compat_bundles"] and self.bids:
             # a structurally identical twin of one bundle (different type, same members)
             src = ch.pick(self.bids, "twin")
@@ -273,7 +279,10 @@ class Gen:
             self.emit(["arr", mc.mid, iname, self.pick_target(mc, for_array=True), ch.rint(1, 3, "n"), ch.pick(["ctor", "mul"]), {}])
         else:
             iname = f"q{mc.ninst}"
-            self.emit(["pair", mc.mid, iname, self.pick_target(mc, for_pair=True), {}])
+            if self.ib_bids and ch.chance(1, 2):
+                self.emit(["pair", mc.mid, iname, self.pick_target(mc, for_pair=True), {}, ch.pick(self.ib_bids, "ibbid")])
+            else:
+                self.emit(["pair", mc.mid, iname, self.pick_target(mc, for_pair=True), {}])
         return iname
 
     # ------------------------------------------------------------------ connections
@@ -287,7 +296,7 @@ class Gen:
             if kind == "arr" and n > 1 and ch.chance(1, 2):
                 w = shape * n  # per-element wiring
             if kind == "pair" and shape == 1 and ch.chance(1, 2):
-                x = self.gen_diff(mc)
+                x = self.gen_diff(mc, info.get("bid", DIFF))
             else:
                 x = self.gen_scalar(mc, w, 0, (iname, port), allow_pr=allow_pr and w == shape, allow_nc=(kind == "inst"), todo=todo)
         else:
@@ -332,12 +341,12 @@ class Gen:
             else:
                 self.connect_port(mc, iname, port, shape, todo if final else [])
 
-    def gen_diff(self, mc):
-        """A Diff bundle instance (for pairs)."""
+    def gen_diff(self, mc, want=DIFF):
+        """A bundle instance of the instance bundle's own bundle type (for pairs)."""
         for bname, (bid, _p, _f) in mc.m.buns.items():
-            if bid == DIFF and self.ch.chance(1, 2):
+            if bid == want and self.ch.chance(1, 2):
                 return ["b", bname]
-        name = self.new_bun(mc, DIFF)
+        name = self.new_bun(mc, want)
         return ["b", name]
 
     def _scalar_sources(self, mc, w, exact):
